@@ -33,7 +33,7 @@ func qosGuard(in ssa.Instruction, owner string, want int64) bool {
 }
 
 func c04(c *core.Ctx) {
-	c.Explain("C04 (inbound QoS 2 exactly once, matching acks): decided statically — R1 in publishHandler, once the unack store reported the packet id as already present, delivery, the OnMsgArrived hook and the retained update are unreachable while the PUBREC stays reachable, and for QoS 2 every path to those effects passes through the store's Set; R2 PUBACK/PUBREC/PUBCOMP are built from the very packet being handled, PUBACK only under QoS 1 and PUBREC only under QoS 2, and what is written is that packet; R3 PUBCOMP is written only after the id was removed successfully; R4 on session resume registerClient re-uses the stored unack store with Init(false), otherwise creates one with Init(true), and the stores' Init clears only under cleanStart; R5 when the PUBREC carries an error code the id is removed again; R6 the redis unack store changes its in-memory id set only after the redis command succeeded (an id cached before a failed HSET would make the retransmission look like a duplicate that was never delivered).")
+	c.Explain("C04 (inbound QoS 2 exactly once, matching acks): decided statically — R1 in publishHandler, once the unack store reported the packet id as already present, delivery, the OnMsgArrived hook and the retained update are unreachable while the PUBREC stays reachable, and for QoS 2 every path to those effects passes through the store's Set; R2 PUBACK/PUBREC/PUBCOMP are built from the very packet being handled, PUBACK only under QoS 1 and PUBREC only under QoS 2, and what is written is that packet; R3 PUBCOMP is written only after the id was removed successfully; R4 on session resume registerClient re-uses the stored unack store with Init(false), otherwise creates one with Init(true), and the stores' Init clears only under cleanStart; R5 when the PUBREC carries an error code the id is removed again; R6 the redis unack store changes its in-memory id set only after the redis command succeeded (an id cached before a failed HSET would make the retransmission look like a duplicate that was never delivered). Added in the second round: Every non-failing return of publishHandler for QoS 1/2 has written the acknowledgement; the redis unack store issues its command on every path that reports success.")
 	c.NotDecided("exactly-once over arbitrary duplicate / reuse histories (runtime contents of the id set), reuse timing")
 	p := c.P
 	ph := p.Func("server", "(*client).publishHandler")
